@@ -236,7 +236,8 @@ class Schema:
         return False
 
     def add_schema(self, schema, root_path: DataPath):
-        for rule in schema.rules:
+        for rule in list(schema.rules):
+            # (a snapshot: `schema` may be this schema itself)
             # a new rule, so the rules of the added schema are left as they are:
             rooted_rule = Rule(
                 path=root_path / rule.path,
